@@ -402,7 +402,9 @@ func init() {
 	}
 	for _, l := range []lam{
 		{"TRUE", func(x []tla.Value) tla.Value { return tla.ModuleTRUE }},
-		{"x.a = 1", func(x []tla.Value) tla.Value { return tla.ModuleEqualsSymbol(x[0].ApplyFunction(tla.MakeString("a")), one) }},
+		{"x.a = 1", func(x []tla.Value) tla.Value {
+			return tla.ModuleEqualsSymbol(x[0].ApplyFunction(tla.MakeString("a")), one)
+		}},
 	} {
 		nested(l, "QSET_REC", "R")
 	}
